@@ -82,7 +82,7 @@ pub fn main(args: &[String]) {
                     Some(Err(e)) => if should_succeed { viol.push(v("edit-refused", "C18", format!("{}: edit of function {} refused: {}", name, fidx, e), wasm)); },
                     Some(Ok((o, _))) => {
                         if !should_succeed { viol.push(v("edit-accepted-wrongly", "C18", format!("{}: {} accepted function {} which is not {}", name, if kind == 1 { "replace_imported_func" } else { "replace_exported_func" }, fidx, if kind == 1 { "imported" } else { "exported" }), wasm)); continue; }
-                        if let Err(e) = amod::validate(o, feats) { viol.push(v(if e.contains("undeclared function reference") { "edit-output-invalid:undeclared-function-reference" } else { "edit-output-invalid" }, "C18 C02", format!("{}: module is invalid after the edit of function {}: {}", name, fidx, e), wasm)); continue; }
+                        if let Err(e) = amod::validate(o, feats) { viol.push(v(if e.contains("undeclared function reference") { if kind == 2 && only_declared_by_one_export(&a, fidx as u32) { "edit-output-invalid:undeclared-function-reference:only-declarer-was-the-retargeted-export" } else { "edit-output-invalid:undeclared-function-reference:other" } } else { "edit-output-invalid" }, "C18 C02", format!("{}: module is invalid after the edit of function {}: {}", name, fidx, e), wasm)); continue; }
                         let b = amod::decode(o).unwrap(); let nib = n_imp_funcs(&b);
                         let marked: Vec<usize> = b.code.iter().enumerate().filter(|(_, c)| has_marker(c)).map(|(i, _)| i + nib).collect();
                         if marked.len() != 1 { viol.push(v("edit-wrong-number-of-new-bodies", "C18", format!("{}: {} functions carry the replacement body", name, marked.len()), wasm)); continue; }
@@ -136,4 +136,15 @@ fn refs_to(a: &AMod, idx: u32) -> (usize, usize) {
     for g in &a.globals { if let Some(c) = &g.init { if c.contains(&rf) { other += 1; } } }
     if a.start == Some(idx) { other += 1; }
     (code, other)
+}
+
+/// the recorded finding: function `f` is the operand of a `ref.func` somewhere, and the ONLY thing that declares it
+/// for the validator is a single export (the one replace_exported_func retargets)
+fn only_declared_by_one_export(a: &AMod, f: u32) -> bool {
+    let n_exp = a.exports.iter().filter(|e| e.1 == 0 && e.2 == f).count();
+    let cd = |c: &Vec<String>| c.iter().any(|t| t.strip_prefix("W_RefFunc ").and_then(|y| y.parse::<u32>().ok()) == Some(f));
+    let by_elem = a.elems.iter().any(|el| match &el.items { crate::amod::AElemItems::Funcs(fs) => fs.contains(&f), crate::amod::AElemItems::Exprs(_, es) => es.iter().any(|c| cd(c)) });
+    let by_global = a.globals.iter().any(|gl| gl.init.as_ref().map(|c| cd(c)).unwrap_or(false));
+    let refd = a.code.iter().any(|b| b.ops.iter().any(|o| o.0.as_ref().map(|t| t.contains(&format!("W_RefFunc {})", f)) || t.ends_with(&format!("W_RefFunc {}", f))).unwrap_or(false)));
+    n_exp == 1 && !by_elem && !by_global && refd
 }
